@@ -124,7 +124,15 @@ func (c *Ctx) Expired() bool {
 func (c *Ctx) NotExhaustive(why string) {
 	c.mu.Lock()
 	c.Exhaustive = false
-	c.notes = append(c.notes, why)
+	dup := false
+	for _, n := range c.notes {
+		if n == why {
+			dup = true
+		}
+	}
+	if !dup {
+		c.notes = append(c.notes, why)
+	}
 	c.mu.Unlock()
 }
 
